@@ -15,4 +15,5 @@ import json
 d=json.load(open('target/run/setup-emit.json'))
 print(' '.join('--bin '+s['bin'] for s in d['shards'] if s['family'] not in ('kinds','slice') and s['grammars']))")
 (cd engines/harness && cargo build --offline --release $BINS)
+(cargo build --offline --manifest-path engines/probes/inherited/Cargo.toml >/dev/null 2>&1 || true)
 echo "setup done"
